@@ -1,5 +1,6 @@
 import Prism.Proofs.C19
 import Prism.Proofs.C19Specific
+import Prism.Proofs.C19Unique
 
 #print axioms Prism.C19_auto
 #print axioms Prism.C19_none
@@ -7,3 +8,4 @@ import Prism.Proofs.C19Specific
 #print axioms Prism.C19_matches_jpeg
 #print axioms Prism.C19_matches_webp
 #print axioms Prism.C19_all_fail
+#print axioms Prism.C19_at_most_one_format
